@@ -382,9 +382,10 @@ def oracle(prop, script, c_lines):
             elif any(x not in t.live for x in vis):
                 return "op %d '%s': visited %s, live elements are %s" % (i, op, vis, L)
             elif 0 <= stop < len(L):
-                if len(vis) != stop + 1 or r != 7:
-                    return ("op %d '%s': visit asked to stop at call #%d with 7: %d calls, returned %d"
-                            % (i, op, stop, len(vis), r))
+                want_r = -3 if stop % 2 else 7
+                if len(vis) != stop + 1 or r != want_r:
+                    return ("op %d '%s': visit asked to stop at call #%d with %d: %d calls, returned %d"
+                            % (i, op, stop, want_r, len(vis), r))
             elif sorted(vis) != L or r != 0:
                 return ("op %d '%s': visited %s (returned %d), live elements are %s"
                         % (i, op, sorted(vis), r, L))
